@@ -3,12 +3,48 @@
 package driver
 
 import (
+	"context"
 	"testing"
 
+	"github.com/ory/x/configx"
+	"github.com/ory/x/logrusx"
+
+	"github.com/ory/keto/internal/driver/config"
+	"github.com/ory/keto/internal/x/dbx"
 	"github.com/ory/keto/ketoctx"
 )
 
 // WithContextualizer is added by the /verif overlay (never part of the repository).
 func WithContextualizer(c ketoctx.Contextualizer) TestRegistryOption {
 	return func(_ testing.TB, r *RegistryDefault) { r.ctxer = c }
+}
+
+// VerifNewFileRegistry builds a registry on in-memory sqlite like NewTestRegistry,
+// but configured from a WATCHED configuration file (the way Keto is deployed): changes
+// to the file are hot-reloaded by the configuration provider.
+func VerifNewFileRegistry(t testing.TB, cfgFile string) *RegistryDefault {
+	ctx, cancel := context.WithCancel(context.Background())
+	t.Cleanup(cancel)
+	dsn := dbx.GetSqlite(t, dbx.SQLiteMemory)
+	l := logrusx.New("Ory Keto", "testing")
+	cfgCtx := configx.ContextWithConfigOptions(ctx,
+		// (forced values would shadow the file: only what the file never says is forced)
+		configx.WithValues(map[string]interface{}{
+			config.KeyDSN: dsn.Conn,
+			"log.level":   "panic",
+		}),
+		configx.WithConfigFiles(cfgFile),
+	)
+	c, err := config.NewDefault(cfgCtx, nil, l)
+	if err != nil {
+		t.Fatalf("config from file: %v", err)
+	}
+	r := &RegistryDefault{c: c, l: l, ctxer: &ketoctx.DefaultContextualizer{}}
+	if err := r.MigrateUp(ctx); err != nil {
+		t.Fatalf("migrate: %v", err)
+	}
+	if err := r.Init(ctx); err != nil {
+		t.Fatalf("init: %v", err)
+	}
+	return r
 }
